@@ -97,6 +97,11 @@ P = {
         note="_fit statistics, norm.ppf and scipy bootstrap are oracles; indistinguishable candidate levels all accepted.",
         tech="Coq proof by induction over aggregate levels (first-match lookup lemmas) + differential correspondence via calibration fingerprints",
         ref="DESIGN.md section 5 C15"),
+    "C13": dict(
+        text="Theorem: merging the per-estimand frames of any duplicate-free list of estimands keeps every key / category column once and un-suffixed whenever the shared columns are all merge keys; generated facts (merge key lists, column lists of the per-estimand frames, inner merges) re-derived from the source each run and decided by computation; per-level cache theorem for the gaussian estimator (an aggregate computation for level a reads level a's bounds whatever other levels were requested). Request independence of the implementation itself is decided by paired runs differing only in the other requested levels / aggregates / estimands, compared bit for bit, all three estimators.",
+        note="Independence of the numeric pipeline from the rest of the request is a property of shared mutable state in the implementation: decided by the paired-run correspondence, not by a theorem about a functional model (which would be vacuous).",
+        tech="Coq proof (pandas merge-suffix model, assoc-list cache) + computation on generated merge facts + paired-run differential correspondence",
+        ref="DESIGN.md section 5 C13"),
 }
 
 REASON_NOT_BUILT = "check not built yet in this development stage (planned: see DESIGN.md section 5)"
